@@ -96,109 +96,175 @@ def run(c, facts, tier):
         if name.startswith("S_I") and not name.startswith("S_IF"):
             c.ob("C08.consts", "permission_flags::values", name, consts.get(name) == int(val, 8), "%s = %s; POSIX %s" % (name, oct(consts.get(name) or 0), val), nontrivial=False)
     MASK = 0o7777
-    # ---------------------------------------------------------------- who/perm table
-    vf = facts.fn("Permission::value")
-    body = rx.tail_expr(vf.body)
-    table = {}
-    if body is not None and body["k"] == "match":
-        for arm in body["arms"]:
-            for p in rx.pat_cases(arm["pat"]):
-                if p["k"] == "lit":
-                    try:
-                        table[p["v"]] = bv(arm["body"], {"__mask": MASK}, consts)
-                    except Unknown as e:
-                        table[p["v"]] = None
-    for ch, val in list(posix["who"].items()) + list(posix["perm"].items()):
-        c.ob("C08.who-perm", vf.key, "'%s' → %s" % (ch, val), table.get(ch) == int(val, 8), "value('%s') = %s; chmod: %s" % (ch, oct(table[ch]) if table.get(ch) is not None else None, val), witness="-perm %s" % ("%s+r" % ch if ch in "ugoa" else "u+%s" % ch) if table.get(ch) != int(val, 8) else None)
-    fs = facts.fn("Permission::from_symbolic_str")
-    base, chain = rx.method_chain(rx.tail_expr(fs.body))
-    ms = [m for m, _, _ in chain]
-    red = [a for m, a, _ in chain if m in ("reduce", "fold")]
-    ok = ms[-3:] == ["chars", "map", "reduce"] or ms[-2:] == ["map", "reduce"]
-    if red and red[0] and red[0][-1]["k"] == "closure":
-        cb = rx.closure_body(red[0][-1])
-        ps = [p.get("name") for p in rx.closure_params(red[0][-1])]
-        ok = ok and cb["k"] == "binary" and cb["op"] == "|" and sorted([rx.var_name(cb["lhs"]), rx.var_name(cb["rhs"])]) == sorted(ps)
-    else:
-        ok = False
-    mp = [a for m, a, _ in chain if m == "map"]
-    ok = ok and mp and (rx.path_str(mp[0][0]) or "").split("::")[-1] == vf.name
-    c.ob("C08.who-perm", fs.key, "a who/perm string is the OR of its letters", ok, "from_symbolic_str = %s" % ms)
-    # ---------------------------------------------------------------- clause algebra
-    pp = facts.fn("<PartialPermission as Parseable>::parse")
+    # ---------------------------------------------------------------- evaluation set-up
+    # Everything between the characters read and the Permission built is *evaluated* (vlib/probe.py, vlib/irval.py): the
+    # clause parser on symbolic who / perm strings of three unknown characters each, update() on unknown payloads, the
+    # map chains of the permission parser on every octal string and on a list of three unknown clauses.
+    from .. import probe as P, irval
+
     b = peg.Builder(facts)
     g = peg.Grammar(b)
+    pp = facts.fn("<PartialPermission as Parseable>::parse")
+    pk = "<Permission as Parseable>::parse"
+    # the letter → bits function(s): any function char -> Mode
+    letter_fns = [fn for fn in facts.fns.values() if not fn.test and [t for n_, t in fn.params if n_ != "self"] == ["char"] and norm_ty(fn.node.get("output") or "") == "Mode"]
     fb = b.fn_ir(pp.key)
+    leaves = []
+    g.walk(fb, lambda n_: leaves.append(n_) if n_["t"] == "set" and n_["cs"][0] == "in" else None, follow=False)
     roles = {}
-    # the three parts of a clause, however they are bound: one tuple step, or one step per part
-    for nm, n in g.bindings(fb).items():
-        n = A.unwrap(n)
-        if n["t"] == "set" and n["cs"][0] == "in":
-            cs = "".join(sorted(n["cs"][1]))
-            roles[nm] = {"agou": "who", "+-=": "op", "rwx": "perm"}.get(cs, "?" + cs)
-            want_rng = (1, None) if cs != "+-=" else (1, 1)
-            c.ob("C08.algebra", pp.key, "clause part %s = [%s]%s" % (roles[nm], cs, "+" if cs != "+-=" else ""), roles[nm][0] != "?" and (n["min"], n["max"]) == want_rng, "parser element %s range %s..%s" % (peg.cs_show(n["cs"]), n["min"], n["max"]), nontrivial=False)
-    order = [roles.get(rx.pat_bindings(p_)[0]) if rx.pat_bindings(p_) else None for st_ in fb["steps"] for p_ in (st_["pat"]["elems"] if st_["pat"]["k"] == "tuple" else [st_["pat"]])]
-    c.ob("C08.algebra", pp.key, "clause parts are parsed in the order who, op, perm", [o for o in order if o] == ["who", "op", "perm"], "order of the clause parts in the parser: %s" % order, nontrivial=False)
-    c.ob("C08.algebra", pp.key, "clause = who+ op perm+", sorted(roles.values()) == ["op", "perm", "who"], "roles: %s" % roles)
-    # let (target_mode, level_mode) = (from_symbolic_str(target).unwrap(), from_symbolic_str(level).unwrap())
-    var_role = {}
-    for st in fb["lets"]:
-        if st["pat"]["k"] == "tuple" and st["init"]["k"] == "tuple":
-            for p, e in zip(st["pat"]["elems"], st["init"]["elems"]):
-                calls = find_all(e, lambda n: n.get("k") == "call" and n["f"]["k"] == "path" and n["f"]["segs"][-1] == fs.name)
-                if calls and rx.var_name(calls[0]["args"][0]) in roles:
-                    var_role[rx.pat_bindings(p)[0]] = roles[rx.var_name(calls[0]["args"][0])]
-        elif st["pat"]["k"] == "ident":
-            calls = find_all(st["init"], lambda n: n.get("k") == "call" and n["f"]["k"] == "path" and n["f"]["segs"][-1] == fs.name)
-            if calls and rx.var_name(calls[0]["args"][0]) in roles:
-                var_role[st["pat"]["name"]] = roles[rx.var_name(calls[0]["args"][0])]
-    opname = next((k for k, v in roles.items() if v == "op"), None)
-    ret = fb["ret"]
-    ctor_of = {}
-    if ret is not None and rx.peel(ret)["k"] == "match" and rx.is_var(rx.peel(ret)["scrut"], opname):
-        for arm in rx.peel(ret)["arms"]:
-            for p in rx.pat_cases(arm["pat"]):
-                if p["k"] == "lit":
-                    bd = rx.peel(arm["body"])
-                    if bd["k"] == "call" and bd["f"]["k"] == "path":
-                        ctor_of[p["v"]] = (bd["f"]["segs"][-1], bd["args"])
+    for n in leaves:
+        cs = "".join(sorted(n["cs"][1]))
+        role = {"agou": "who", "+-=": "op", "rwx": "perm"}.get(cs, "?" + cs)
+        roles[id(n)] = role
+        want_rng = (1, None) if cs != "+-=" else (1, 1)
+        c.ob("C08.algebra", pp.key, "clause part %s = [%s]%s" % (role, cs, "+" if cs != "+-=" else ""), role[0] != "?" and (n["min"], n["max"]) == want_rng, "parser element %s range %s..%s" % (peg.cs_show(n["cs"]), n["min"], n["max"]), nontrivial=False)
+    order = [roles[id(n)] for n in leaves]
+    c.ob("C08.algebra", pp.key, "clause parts are parsed in the order who, op, perm", order == ["who", "op", "perm"], "order of the clause parts in the parser: %s" % order, nontrivial=False)
+    c.ob("C08.algebra", pp.key, "clause = who+ op perm+", sorted(order) == ["op", "perm", "who"], "roles: %s" % order)
+    WHO = [P.Opq("who%d" % i_) for i_ in range(3)]
+    PERM = [P.Opq("perm%d" % i_) for i_ in range(3)]
+
+    class ClauseCtx(irval.Ctx):
+        def __init__(self, op):
+            irval.Ctx.__init__(self, facts, b, pp.module)
+            self.op = op
+            self.probe.opaque_calls = {f_.key for f_ in letter_fns}
+
+        def leaf(self, node):
+            cs = "".join(sorted(node["cs"][1])) if node["t"] == "set" and node["cs"][0] == "in" else None
+            if cs == "agou":
+                return list(WHO)
+            if cs == "rwx":
+                return list(PERM)
+            if cs == "+-=":
+                return self.op
+            raise P.NoEval("unexpected leaf %s" % peg.show(node)[:40])
+
+    def tree_bits(t, asg):
+        """One bit of a Mode expression tree under an assignment of its unknowns (bitwise operators only)."""
+        if isinstance(t, bool):
+            raise Unknown("boolean")
+        if isinstance(t, int):
+            if t == 0:
+                return 0
+            if t == MASK or t == asg.get("__all"):
+                return 1
+            raise Unknown("constant %s" % oct(t))
+        if isinstance(t, P.Opq):
+            if t.expr is None:
+                if id(t) in asg:
+                    return asg[id(t)]
+                raise Unknown("unknown %r" % t)
+            ex = t.expr
+            if ex[0] == "call" and ex[1] in {f_.key for f_ in letter_fns} and len(ex[2]) == 1 and id(ex[2][0]) in asg:
+                return asg[id(ex[2][0])]
+            if ex[0] == "bin":
+                a_, b_ = tree_bits(ex[2], asg), tree_bits(ex[3], asg)
+                if ex[1] == "&":
+                    return a_ & b_
+                if ex[1] == "|":
+                    return a_ | b_
+                if ex[1] == "^":
+                    return a_ ^ b_
+                if ex[1] == "-":
+                    return a_ & (1 - b_)
+                raise Unknown("operator %s" % ex[1])
+            if ex[0] == "not":
+                return 1 - tree_bits(ex[1], asg)
+            if ex[0] == "mcall":
+                r_ = tree_bits(ex[2], asg)
+                if ex[1] == "complement" and not ex[3]:
+                    return 1 - r_
+                if ex[1] in ("bits", "clone", "to_owned") and not ex[3]:
+                    return r_
+                if ex[1] in ("union", "intersection", "difference", "symmetric_difference") and len(ex[3]) == 1:
+                    x_ = tree_bits(ex[3][0], asg)
+                    return {"union": r_ | x_, "intersection": r_ & x_, "difference": r_ & (1 - x_), "symmetric_difference": r_ ^ x_}[ex[1]]
+                raise Unknown("method .%s" % ex[1])
+        raise Unknown("value %r" % (t,))
+
+    # ---------------------------------------------------------------- who/perm table
+    clause = {}
+    clause_err = {}
+    for op in "+-=":
+        try:
+            r = irval.run_parser_fn(pp, ClauseCtx(op))
+            if isinstance(r, tuple) and r and r[0] == "ok" and isinstance(r[1], tuple) and r[1][0] == "enum":
+                clause[op] = r[1]
+            else:
+                clause_err[op] = "result %r" % (r,)
+        except (P.NoEval, P.Panic) as ex:
+            clause_err[op] = str(ex)
+    used = set()
+
+    def calls(t):
+        if isinstance(t, P.Opq) and t.expr:
+            if t.expr[0] == "call":
+                used.add(t.expr[1])
+            for x in t.expr[1:]:
+                for y in x if isinstance(x, list) else [x]:
+                    calls(y)
+
+    for cv in clause.values():
+        for a_ in cv[2]:
+            calls(a_)
+    vfs = [f_ for f_ in letter_fns if f_.key in used]
+    vf = vfs[0] if len(vfs) == 1 else None
+    if vf is None:
+        c.ob("C08.who-perm", pp.key, "one letter → bits function", None, "letter functions applied by the clause parser: %s; %s" % (sorted(used), clause_err))
+    else:
+        from .. import roles as _roles
+
+        vname = _roles.canonical(facts, vf.key) if vf.key != "Permission::value" else vf.key
+        vname = "Permission::value" if vname == vf.key and vf.key != "Permission::value" else vname
+        pr0 = P.Probe(facts, None, vf.module)
+        for ch, val in list(posix["who"].items()) + list(posix["perm"].items()):
+            try:
+                got = pr0.invoke(vf, None, [ch])
+            except (P.NoEval, P.Panic) as ex:
+                got = None
+            got = got if isinstance(got, int) and not isinstance(got, bool) else None
+            c.ob("C08.who-perm", vname, "'%s' → %s" % (ch, val), got == int(val, 8), "value('%s') = %s; chmod: %s" % (ch, oct(got) if got is not None else None, val), witness="-perm %s" % ("%s+r" % ch if ch in "ugoa" else "u+%s" % ch) if got != int(val, 8) else None)
+        # a who / perm string is the OR of its letters: decided on the payload of '=' (which carries both unchanged)
+        ok_or, det_or = None, clause_err.get("=", "no '=' clause")
+        if "=" in clause and len(clause["="][2]) == 2:
+            try:
+                bad = []
+                for tree, xs in zip(clause["="][2], (WHO, PERM)):
+                    for bits in itertools.product((0, 1), repeat=3):
+                        asg = {id(x): v for x, v in zip(xs, bits)}
+                        if tree_bits(tree, asg) != (1 if any(bits) else 0):
+                            bad.append((repr(tree)[:60], bits))
+                ok_or = not bad
+                det_or = "the two parts of a clause evaluated on three unknown letters each: every one is the OR of value(letter) over the letters (8 rows each)%s" % ("" if not bad else "; EXCEPT %s" % bad[:2])
+            except Unknown as ex:
+                det_or = "not a bitwise expression of the letters: %s" % ex
+        c.ob("C08.who-perm", "Permission::from_symbolic_str", "a who/perm string is the OR of its letters", ok_or, det_or)
+    # ---------------------------------------------------------------- clause algebra
     upd = facts.fn("PartialPermission::update")
-    ub = rx.tail_expr(upd.body)
-    modeparam = upd.params[0][0] if upd.params else "mode"
-    arms = {}
-    if ub is not None and ub["k"] == "match":
-        for arm in ub["arms"]:
-            for p in rx.pat_cases(arm["pat"]):
-                pv = rx.pat_variant(p)
-                if pv:
-                    arms[pv[0].split("::")[-1]] = ([rx.pat_bindings(x)[0] if rx.pat_bindings(x) else None for x in pv[1]], arm["body"])
     for op, ref in chmod["algebra"].items():
         inst = "operator '%s' ≡ %s" % (op, ref)
-        if op not in ctor_of:
-            c.ob("C08.algebra", pp.key, inst, None, "no arm for operator %r" % op)
+        if op not in clause:
+            c.ob("C08.algebra", pp.key, inst, None, "clause with operator %r could not be evaluated: %s" % (op, clause_err.get(op)))
             continue
-        variant, cargs = ctor_of[op]
-        if variant not in arms:
-            c.ob("C08.algebra", upd.key, inst, None, "update() has no arm for %s" % variant)
-            continue
-        binds, body = arms[variant]
+        cv = clause[op]
+        M = P.Opq("mode")
         diffs = []
         try:
-            for m_, t_, l_ in itertools.product((0, 1), repeat=3):
-                env = {"__mask": 1}
-                for nm, role in var_role.items():
-                    env[nm] = t_ if role == "who" else l_
-                payload = [bv(a, env, {}) for a in cargs]
-                env2 = {"__mask": 1, modeparam: m_}
-                for bn, pv_ in zip(binds, payload):
-                    if bn:
-                        env2[bn] = pv_
-                got = bv(body, env2, {})
-                want = pyeval(ref, m_, t_, l_, 1)
-                if got != want:
-                    diffs.append((m_, t_, l_, got, want))
-        except Unknown as e:
+            pru = P.Probe(facts, None, upd.module)
+            out = pru.invoke(upd, cv, [M])
+            for m_ in (0, 1):
+                for tb in itertools.product((0, 1), repeat=3):
+                    for lb in itertools.product((0, 1), repeat=3):
+                        asg = {id(M): m_}
+                        asg.update({id(x): v for x, v in zip(WHO, tb)})
+                        asg.update({id(x): v for x, v in zip(PERM, lb)})
+                        t_, l_ = int(any(tb)), int(any(lb))
+                        got = tree_bits(out, asg)
+                        want = pyeval(ref, m_, t_, l_, 1)
+                        if got != want and (m_, t_, l_, got, want) not in diffs:
+                            diffs.append((m_, t_, l_, got, want))
+        except (Unknown, P.NoEval, P.Panic) as e:
             c.ob("C08.algebra", pp.key, inst, None, "expression not evaluable: %s" % e)
             continue
         wit = None
@@ -210,41 +276,56 @@ def run(c, facts, tier):
             "PartialPermission",
             inst,
             not diffs,
-            "payload %s(%s) composed with update() `%s`: %d of 8 truth-table rows differ from chmod%s" % (variant, ", ".join(src(a) for a in cargs), src(body)[:80], len(diffs), (" " + str(diffs)) if diffs else ""),
+            "clause built for %r: %s(%s); composed with update(): %d of 8 (mode, who, perm) classes differ from chmod%s" % (op, cv[1].split("::")[-1], ", ".join(repr(a_)[:70] for a_ in cv[2]), len(diffs), (" " + str(diffs)) if diffs else ""),
             witness=wit,
             facts={"rows": 8, "differ": diffs},
         )
     # ---------------------------------------------------------------- fold / octal
-    pk = "<Permission as Parseable>::parse"
     body = A.single_body(b.fn_ir(pk))
     alts = [A.unwrap(a) for a in A.flat_alts(body)] if body is not None else []
-    octal, symb = None, None
-    for a in alts:
+
+    def leaf_of(a):
         inner = a
-        maps = []
-        while inner["t"] in ("map", "ctx", "cut"):
-            if inner["t"] == "map":
-                maps.append(inner["f"])
+        while inner["t"] in ("map", "ctx", "cut", "trymap", "verify"):
             inner = inner["p"]
-        if inner["t"] == "set":
-            octal = (inner, maps)
-        elif inner["t"] == "sep":
-            symb = (inner, maps)
-    oko = None
-    det = "octal alternative not found"
-    if octal:
-        st, maps = octal
-        txt = " ".join(src(m) for m in maps)
-        radix = [rx.int_const(n["args"][1]) for m in maps for n in find_all(m, lambda n: n.get("k") == "call" and n["f"]["k"] == "path" and n["f"]["segs"][-1] == "from_str_radix")]
-        exact = bool([n for m in maps for n in find_all(m, lambda n: n.get("k") == "call" and n["f"]["k"] == "path" and n["f"]["segs"][-1] == "from_bits")]) and "from_bits_truncate" not in txt and "from_bits_retain" not in txt
-        oko = st["cs"] == peg.cs_in("01234567") and radix == [8] and exact
-        det = "digits %s, radix %s, exact from_bits: %s" % (peg.cs_show(st["cs"]), radix, exact)
-        c.ob("C08.octal", pk, "octal digits, radix 8, exact bit conversion", oko, det)
-        env_ = {"__module": facts.fn(pk).module, "__tsubst": {}}
-        comp = compose_maps(maps, facts, b, env_, "Permission")
-        want_comp = "Permission(Mode::from_bits(u32::from_str_radix(X,8).unwrap()).unwrap())"
-        c.ob("C08.octal", pk, "the permission is exactly the mode of the octal value", comp is not None and re.sub(r"\s", "", comp) == want_comp, "digits X become `%s`; required `%s` (no masking or other arithmetic on the way, conversions through From impls inlined)" % (comp, want_comp), witness="-perm 4755" if comp != want_comp else None)
+        return inner
+
+    octal = next((a for a in alts if leaf_of(a)["t"] == "set"), None)
+    symb = next((a for a in alts if leaf_of(a)["t"] == "sep"), None)
+    pmod = facts.fn(pk).module
+    if octal is not None:
+        st = leaf_of(octal)
         bounded = st["max"] is not None and 8 ** st["max"] - 1 <= MASK and st["min"] >= 3
+        digits_ok = st["cs"] == peg.cs_in("01234567")
+        bad, nstr = [], 0
+        if st["cs"][0] == "in" and st["max"] is not None and st["max"] <= 5 and len(st["cs"][1]) <= 10:
+
+            class OctCtx(irval.Ctx):
+                def leaf(self, node):
+                    return self.text
+
+            ctx = OctCtx(facts, b, pmod)
+            for n_ in range(max(st["min"], 1), st["max"] + 1):
+                for tup in itertools.product(sorted(st["cs"][1]), repeat=n_):
+                    ctx.text = "".join(tup)
+                    nstr += 1
+                    try:
+                        v = irval.value(octal, ctx)
+                        want_v = ("enum", "Permission", [int(ctx.text, 8)]) if all(ch in "01234567" for ch in ctx.text) else None
+                        if v != want_v and len(bad) < 3:
+                            bad.append("%s → %r" % (ctx.text, v))
+                    except P.Panic as ex:
+                        if len(bad) < 3:
+                            bad.append("%s → panic (%s)" % (ctx.text, ex))
+                    except P.NoEval as ex:
+                        bad.append("not evaluable: %s" % ex)
+                        break
+                if bad and "not evaluable" in bad[-1]:
+                    break
+        else:
+            bad.append("the digit run is not a bounded run over a small alphabet")
+        c.ob("C08.octal", pk, "octal digits, radix 8, exact bit conversion", digits_ok and not bad, "digits %s; every one of the %d digit strings the run can match evaluated through the map chain%s" % (peg.cs_show(st["cs"]), nstr, "" if not bad else ": " + "; ".join(bad)))
+        c.ob("C08.octal", pk, "the permission is exactly the mode of the octal value", not bad and nstr > 0, "for each of the %d strings X the value is Permission(bits = X read in base 8), nothing masked, nothing panics%s" % (nstr, "" if not bad else "; EXCEPT " + "; ".join(bad)), witness="-perm 4755" if bad else None)
         c.ob(
             "C08.octal",
             pk,
@@ -254,35 +335,43 @@ def run(c, facts, tier):
             witness="-perm 10000" if not bounded else None,
         )
     else:
-        c.ob("C08.octal", pk, "octal branch present", False, det)
-    okf = None
-    det = "symbolic alternative not found"
-    if symb:
-        sp, maps = symb
+        c.ob("C08.octal", pk, "octal branch present", False, "octal alternative not found")
+    if symb is not None:
+        sp = leaf_of(symb)
         sepok = A.unwrap(sp["sep"])["t"] == "lit" and A.unwrap(sp["sep"])["s"] == "," and sp["min"] == 1 and sp["max"] is None and A.unwrap(sp["p"])["t"] == "ref" and A.unwrap(sp["p"])["fn"] == pp.key
-        folds = [n for m in maps for n in find_all(m, lambda n: n.get("k") == "mcall" and n["m"] == "fold")]
-        fold_ok = False
-        if len(folds) == 1:
-            f = folds[0]
-            base, chain = rx.method_chain(f["recv"])
-            ms = [m for m, _, _ in chain]
-            seed = f["args"][0]
-            clo = f["args"][1]
-            zeros = [rx.int_const(n["args"][0]) for n in find_all(seed, lambda n: n.get("k") == "call" and n["f"]["k"] == "path" and n["f"]["segs"][-1] in ("from_bits", "from_bits_truncate", "from_bits_retain"))]
-            seed_ok = zeros == [0] or src(seed) in ("Mode::empty()",)
-            if clo["k"] == "closure" and len(clo["params"]) == 2:
-                acc, e_ = [rx.pat_bindings(p)[0] for p in rx.closure_params(clo)]
-                cb = rx.closure_body(clo)
-                step_ok = cb["k"] == "mcall" and cb["m"] == upd.name and rx.is_var(cb["recv"], e_) and len(cb["args"]) == 1 and rx.is_var(cb["args"][0], acc)
-                fold_ok = seed_ok and step_ok and ms in (["iter"], ["into_iter"])
-            det = "fold over %s from %s with step `%s`" % (ms, src(seed), src(clo)[:50])
-        okf = sepok and fold_ok
-        comp_s = compose_maps(maps, facts, b, {"__module": facts.fn(pk).module, "__tsubst": {}}, "Permission")
-        okw = comp_s is not None and re.fullmatch(r"Permission\(X\.(iter|into_iter)\(\)\.fold\(.*\)\)", re.sub(r"\s", "", comp_s)) is not None
-        c.ob("C08.fold", pk, "the permission is exactly the folded mode", okw, "clause list X becomes `%s`; required `Permission(X.iter().fold(..))` with nothing applied to the folded mode" % (comp_s[:140] if comp_s else None), witness="-perm u+s" if not okw else None)
-        c.ob("C08.fold", pk, "clauses separated by ',' and applied left to right from mode 0", okf, det + "; separator/min ok: %s" % sepok, witness="-perm u+r,u-r" if okf is False else None)
+        CL = [P.Opq("clause%d" % i_) for i_ in range(3)]
+
+        class FoldCtx(irval.Ctx):
+            def rep(self, node):
+                return list(CL)
+
+        okw, okf, det = None, None, ""
+        try:
+            v = irval.value(symb, FoldCtx(facts, b, pmod))
+            # Permission(update(c2, update(c1, update(c0, 0))))
+            def unfold(t):
+                seq = []
+                while isinstance(t, P.Opq) and t.expr and ((t.expr[0] == "mcall" and t.expr[1] == upd.name and len(t.expr[3]) == 1) or (t.expr[0] == "call" and t.expr[1] == upd.key and len(t.expr[2]) == 2)):
+                    if t.expr[0] == "mcall":
+                        seq.append(t.expr[2])
+                        t = t.expr[3][0]
+                    else:
+                        seq.append(t.expr[2][0])
+                        t = t.expr[2][1]
+                return seq, t
+
+            det = "clause list [c0, c1, c2] becomes `%r`" % (v,)
+            okw = isinstance(v, tuple) and v and v[0] == "enum" and v[1] == "Permission" and len(v[2]) == 1
+            if okw:
+                seq, seed = unfold(v[2][0])
+                okw = len(seq) == 3 and {id(x) for x in seq} == {id(x) for x in CL}
+                okf = okw and [id(x) for x in seq] == [id(x) for x in reversed(CL)] and seed == 0
+        except (P.NoEval, P.Panic) as ex:
+            det = "the map chain over the clause list is not evaluable: %s" % ex
+        c.ob("C08.fold", pk, "the permission is exactly the folded mode", okw, det[:300] + "; required Permission(update applied once per clause) with nothing else applied to the mode", witness="-perm u+s" if not okw else None)
+        c.ob("C08.fold", pk, "clauses separated by ',' and applied left to right from mode 0", (sepok and okf) if okf is not None else None, det[:200] + "; separator/min ok: %s" % sepok, witness="-perm u+r,u-r" if okf is False else None)
     else:
-        c.ob("C08.fold", pk, "symbolic branch present", False, det)
+        c.ob("C08.fold", pk, "symbolic branch present", False, "symbolic alternative not found")
     from .. import mir as _mir
 
     nacc = _mir.order_rule(c, facts, "C08.fold", [pk], "clauses must be applied in the order written (u+r,u-r ≠ u-r,u+r) and none may be dropped")
